@@ -1,5 +1,5 @@
 import Goflow.Gen.Config
-import Goflow.Gen.C13
+import Goflow.Gen.History
 import Goflow.Gen.Frame
 import Goflow.Spec.Bits
 /-!
@@ -152,6 +152,13 @@ def genElemRound (i : Nat) : G (List String) := do
     if version = 10 ∧ (← chance 1 3) then
       -- same element id under another enterprise number (or none): not matched
       fields := fields ++ [(⟨m.type, ← range 1 8, if m.penProvided then some (m.pen + 1) else some 77⟩, none)]
+  -- now and then the template lists a mapped element twice: the destination is written twice in one flow
+  if (← chance 1 3) then
+    match fields.head? with
+    | some (f, some m) =>
+      let w ← if isNumeric m.dest then range 1 (numericMax m.dest) else range 1 20
+      fields := fields ++ [(⟨f.id, w, f.ent⟩, some m)]
+    | _ => pure ()
   fields := fields ++ [(⟨430, 4, none⟩, none), (⟨8, 4, none⟩, none)]
   fields ← shuffle fields
   let tid ← range 256 300
